@@ -23,7 +23,7 @@ class Divergence(RuntimeError):
     """a recorded schedule cannot be followed on this tree"""
 
 
-CREATE_KINDS = ("open", "mkdir", "unlink", "rmdir", "rename")
+CREATE_KINDS = ("open", "mkdir", "unlink", "rmdir", "rename", "link")
 
 
 def dependent(a, b):
@@ -212,7 +212,7 @@ class Exec:
         dst = info.get("dst")
         if dst:
             dst = self.norm(dst, actor.aid)
-        entry = (kind in ("unlink", "rmdir", "mkdir", "rename")
+        entry = (kind in ("unlink", "rmdir", "mkdir", "rename", "link")
                  or (kind == "open" and mut and not info.get("existed")))
         # bookkeeping used to decide which operations need to be scheduling
         # points at all (see Sharing)
